@@ -25,6 +25,9 @@ Extract/C12x.vos Extract/C12x.vok Extract/C12x.required_vos: Extract/C12x.v Mode
 Extract/C14x.vo Extract/C14x.glob Extract/C14x.v.beautified Extract/C14x.required_vo: Extract/C14x.v Model/LspText.vo Spec/C14.vo
 Extract/C14x.vio: Extract/C14x.v Model/LspText.vio Spec/C14.vio
 Extract/C14x.vos Extract/C14x.vok Extract/C14x.required_vos: Extract/C14x.v Model/LspText.vos Spec/C14.vos
+Extract/C15x.vo Extract/C15x.glob Extract/C15x.v.beautified Extract/C15x.required_vo: Extract/C15x.v Model/FmtEdit.vo
+Extract/C15x.vio: Extract/C15x.v Model/FmtEdit.vio
+Extract/C15x.vos Extract/C15x.vok Extract/C15x.required_vos: Extract/C15x.v Model/FmtEdit.vos
 Extract/C17x.vo Extract/C17x.glob Extract/C17x.v.beautified Extract/C17x.required_vo: Extract/C17x.v Model/Debug.vo Spec/C17Judge.vo
 Extract/C17x.vio: Extract/C17x.v Model/Debug.vio Spec/C17Judge.vio
 Extract/C17x.vos Extract/C17x.vok Extract/C17x.required_vos: Extract/C17x.v Model/Debug.vos Spec/C17Judge.vos
@@ -52,6 +55,9 @@ Model/Debug.vos Model/Debug.vok Model/Debug.required_vos: Model/Debug.v
 Model/Fb.vo Model/Fb.glob Model/Fb.v.beautified Model/Fb.required_vo: Model/Fb.v 
 Model/Fb.vio: Model/Fb.v 
 Model/Fb.vos Model/Fb.vok Model/Fb.required_vos: Model/Fb.v 
+Model/FmtEdit.vo Model/FmtEdit.glob Model/FmtEdit.v.beautified Model/FmtEdit.required_vo: Model/FmtEdit.v 
+Model/FmtEdit.vio: Model/FmtEdit.v 
+Model/FmtEdit.vos Model/FmtEdit.vok Model/FmtEdit.required_vos: Model/FmtEdit.v 
 Model/Io.vo Model/Io.glob Model/Io.v.beautified Model/Io.required_vo: Model/Io.v 
 Model/Io.vio: Model/Io.v 
 Model/Io.vos Model/Io.vok Model/Io.required_vos: Model/Io.v 
@@ -124,6 +130,9 @@ Proofs/C12Proofs.vos Proofs/C12Proofs.vok Proofs/C12Proofs.required_vos: Proofs/
 Proofs/C14Proofs.vo Proofs/C14Proofs.glob Proofs/C14Proofs.v.beautified Proofs/C14Proofs.required_vo: Proofs/C14Proofs.v Model/LspText.vo Spec/C14.vo
 Proofs/C14Proofs.vio: Proofs/C14Proofs.v Model/LspText.vio Spec/C14.vio
 Proofs/C14Proofs.vos Proofs/C14Proofs.vok Proofs/C14Proofs.required_vos: Proofs/C14Proofs.v Model/LspText.vos Spec/C14.vos
+Proofs/C15Proofs.vo Proofs/C15Proofs.glob Proofs/C15Proofs.v.beautified Proofs/C15Proofs.required_vo: Proofs/C15Proofs.v Model/FmtEdit.vo
+Proofs/C15Proofs.vio: Proofs/C15Proofs.v Model/FmtEdit.vio
+Proofs/C15Proofs.vos Proofs/C15Proofs.vok Proofs/C15Proofs.required_vos: Proofs/C15Proofs.v Model/FmtEdit.vos
 Proofs/C17Inv.vo Proofs/C17Inv.glob Proofs/C17Inv.v.beautified Proofs/C17Inv.required_vo: Proofs/C17Inv.v Model/Debug.vo
 Proofs/C17Inv.vio: Proofs/C17Inv.v Model/Debug.vio
 Proofs/C17Inv.vos Proofs/C17Inv.vok Proofs/C17Inv.required_vos: Proofs/C17Inv.v Model/Debug.vos
@@ -187,6 +196,9 @@ Properties/C12.vos Properties/C12.vok Properties/C12.required_vos: Properties/C1
 Properties/C14.vo Properties/C14.glob Properties/C14.v.beautified Properties/C14.required_vo: Properties/C14.v Model/LspText.vo Spec/C14.vo Proofs/C14Proofs.vo
 Properties/C14.vio: Properties/C14.v Model/LspText.vio Spec/C14.vio Proofs/C14Proofs.vio
 Properties/C14.vos Properties/C14.vok Properties/C14.required_vos: Properties/C14.v Model/LspText.vos Spec/C14.vos Proofs/C14Proofs.vos
+Properties/C15.vo Properties/C15.glob Properties/C15.v.beautified Properties/C15.required_vo: Properties/C15.v Model/FmtEdit.vo Proofs/C15Proofs.vo
+Properties/C15.vio: Properties/C15.v Model/FmtEdit.vio Proofs/C15Proofs.vio
+Properties/C15.vos Properties/C15.vok Properties/C15.required_vos: Properties/C15.v Model/FmtEdit.vos Proofs/C15Proofs.vos
 Properties/C17.vo Properties/C17.glob Properties/C17.v.beautified Properties/C17.required_vo: Properties/C17.v Model/Debug.vo Proofs/C17Inv.vo Proofs/C17Proofs.vo
 Properties/C17.vio: Properties/C17.v Model/Debug.vio Proofs/C17Inv.vio Proofs/C17Proofs.vio
 Properties/C17.vos Properties/C17.vok Properties/C17.required_vos: Properties/C17.v Model/Debug.vos Proofs/C17Inv.vos Proofs/C17Proofs.vos
